@@ -174,6 +174,7 @@ class OracleRunner(kscript.Runner):
         self.ended = []         # (Process, name, returned normally?, value or exception, now): how each script generator ended
         self.seqno = 0
         self.cond_obj = {}      # label -> the condition object
+        self.cond_form = {}     # label -> how the operands were handed to the constructor (list, generator, iterator, tuple, filter, operator)
         self.trig_at = {}       # label -> (kernel step, RecEnv trigger count) at the accepted succeed()/fail() call of the program
         self.overtakes = []     # events that took effect in the very burst that triggered them (see ordinary_overtakes)
         self.lines_done = {}    # label -> number of observation lines when the kernel step that processed the event had ended
@@ -214,8 +215,12 @@ class OracleRunner(kscript.Runner):
         elif what == 'interrupt':
             name, victim, cause, alive, selfi, raised, me, busy = a
             self.rec.append(('interrupt', self._tick(), name, (self.pnames.get(id(victim)), id(victim)), cause, alive, selfi, raised, self.env.now, busy))
+        elif what == 'cond-form':
+            self._form = a[0]
         elif what == 'cond':
             ev, kind, evs = a
+            self.cond_form[self.lab(ev)] = getattr(self, '_form', None) or 'pair of operands of & / |'
+            self._form = None
             self.conds[self.lab(ev)] = (kind, list(evs), self.env.now, self._tick())
             self.cond_pre[self.lab(ev)] = [e.callbacks is None for e in evs]      # what the constructor saw
             self.cond_at[self.lab(ev)] = (self.env.nstep, ev.triggered)
@@ -622,8 +627,10 @@ def oracle_c05(case, lines, runner=None):
                 done = [q for q in qs if q is not None]
                 holds = (len(done) == len(ops)) if kind == 'allof' else (len(done) > 0 or not ops)
                 if holds or any(not q[2] for q in done):
-                    fails.append({'what': f'{kind} e{lab} over operands {[r.lab(e) for e in ops]} never fired although '
-                                          f'{len(done)} of {len(ops)} operands were processed', 'signature': 'c05-never-fired'}); break
+                    fails.append({'what': f'{kind} e{lab} over operands {[r.lab(e) for e in ops]} (handed to the constructor as a '
+                                          f'{r.cond_form.get(lab)}) never fired although {len(done)} of {len(ops)} operands were processed'
+                                          + (' (an empty operand list triggers immediately)' if not ops else ''),
+                                  'signature': 'c05-never-fired'}); break
             continue
         pseq, pnow, pok, pval, pkeys = p
         # instants at which the operands were processed (operands processed before construction count from construction)
@@ -714,3 +721,62 @@ def oracle_until_failed(case, lines, runner=None):
             return [{'what': f'run(until=e{n[5]}) returned normally although e{n[5]} failed and no waiter handled the failure',
                      'signature': 'c02-until-failed-returned'}]
     return []
+
+
+def oracle_until_event_return(case, lines, runner=None):
+    """restates C03 "run(until=event) returns that event's value right after it is processed": when run(until=E) is entered
+    with E not yet processed and returns normally, it returns right behind the kernel step that processed E - nothing that the
+    waiters of E set going in that instant (the first statement of a process they started, the delivery of an interrupt they
+    issued, the waiters of an event they triggered) has been observed by then.  Observations = what process bodies and probe
+    callbacks see (the P and B lines of the trace); counted at the end of the kernel step that processed E and at the return."""
+    if case.mode != 'plan':
+        return []
+    r = instrumented(case)
+    for lab, was_done, nobs, normal, now in r.until_returns:
+        if was_done or not normal or lab not in r.lines_done or lab in externally_triggered(r):
+            continue
+        if nobs != r.lines_done[lab]:
+            obs = [l for l in r.lines if l[0] in 'PB']
+            extra = obs[r.lines_done[lab]:nobs]
+            return [{'what': f'run(until=e{lab}) did not return right after e{lab} was processed (at {r.processed[lab][1]}): by the time it '
+                             f'returned, {len(extra)} further observation(s) had already happened: {extra[:4]} (plan {case.plan})',
+                     'signature': 'until-event-returns-late'}]
+    return []
+
+
+def oracle_pending_discarded(case, lines, runner=None):
+    """restates C04 "interrupts still pending when the process ends are discarded without error": the only exception step() may
+    let out is the exception of a failed event that nobody handled (C02) - the very object's type and arguments.  An exception
+    of another kind coming out of step() after a process ended with accepted interrupts still undelivered means a pending
+    interrupt was not discarded quietly.  (Judged on uninterrupted step-mode runs; programs that trigger Process / Condition
+    objects by hand are outside the quantifier.)"""
+    x = getattr(runner, 'raised', None)
+    if case.mode != 'step' or x is None:
+        return []
+    r = instrumented(case)
+    if externally_triggered(r) or r.out_of_scope:
+        return []
+    for ev in r.keep:
+        v = getattr(ev, '_value', None)
+        if getattr(ev, '_ok', True) is False and isinstance(v, BaseException) and type(v) is type(x) and v.args == x.args:
+            return []          # the failure of an event of the program, re-raised by the kernel: C02's business
+    # accepted interrupts and deliveries per victim, and how each victim ended
+    issued, got, waiting = {}, {}, {}
+    for rec in r.rec:
+        if rec[0] == 'yield':
+            waiting[rec[2]] = rec
+        elif rec[0] == 'interrupt' and not rec[7]:
+            issued.setdefault(rec[3], []).append((rec[4], rec[8]))
+        elif rec[0] == 'resumed':
+            y = waiting.pop(rec[2], None)
+            if is_interrupt_delivery(rec, y) and type(rec[4].cause).__name__ != 'Preempted':
+                got[rec[2]] = got.get(rec[2], 0) + 1
+    for p, name, ok, v, now in r.ended:
+        key = (name, id(p))
+        left = issued.get(key, [])[got.get(key, 0):]
+        if left:
+            return [{'what': f'process {name} ended at {now} ({"returned " + repr(v) if ok else "raised " + repr(v)}) with {len(left)} accepted '
+                             f'interrupt(s) still pending (cause, issued at: {left[:3]}); they must be discarded without error, but step() '
+                             f'raised {x!r} at {r.env.now}', 'signature': 'c04-pending-interrupt-error'}]
+    return [{'what': f'step() raised {x!r} at {r.env.now}, which is not the exception of any failed event of the program',
+             'signature': 'c04-kernel-raised'}]
